@@ -601,6 +601,12 @@ func (s *vStore) UpdateData(data *SwapStateMachine) error {
 	if s.nativeDelay > 0 && !zzverif.Symbolic() {
 		time.Sleep(s.nativeDelay)
 	}
+	// the real store writes the record as JSON and a restart decodes it again: an interface-typed member
+	// (last_message) that holds a value encodes fine but cannot be decoded, and the swap is lost at the next
+	// restart - a record that is written must be one that can be read back
+	if data.Data != nil {
+		zzverif.Assert(data.Data.LastMessage == nil, "C16.stored_record_can_be_decoded_again")
+	}
 	// the real store marshals the complete record: it reads every field of the swap data
 	zzverif.RaceTouch(data.Data, false)
 	s.recs[data.SwapId.String()] = vSnapshot(data)
